@@ -82,6 +82,14 @@ BlockedBy(s, m) ==
 
 ThresholdOK(s) == 1 <= s.threshold /\ s.threshold <= Cardinality(s.attesters)
 
+\* inputs on which the property statements are silent (DESIGN 2.7): the specification models what the code does
+\* there, but no lens may depend on it
+DontCare(m) ==
+  \/ (m.type = "ReceiveMessage" /\ m.wire.k = "msg" /\ ~IsZero32(m.wire.caller) /\ m.wire.caller.hi # "z")
+  \/ (m.type \in ReplTypes /\ m.caller.n # 32)
+RegistryTypes == {"LinkTokenPair", "UnlinkTokenPair", "AddRemoteTokenMessenger", "RemoveRemoteTokenMessenger",
+                  "SetMaxBurnAmountPerMessage", "EnableAttester", "DisableAttester"}
+
 ---------------------------------------------------------------------------
 (* C15: documented write sets, over abstract store keys                     *)
 \* abstract store keys: [k] for the single-valued entries, [k, id] for registry entries; `id` is always a
@@ -274,7 +282,7 @@ LensR(p, pre, m, f, o, r) ==
     [] p = "C12" ->
          /\ BlockedBy(pre, m) => res # "ok"
          /\ <<o.post.pausedBM, o.post.pausedSR>> = <<r.post.pausedBM, r.post.pausedSR>>
-         /\ ((pre.pausedBM \/ pre.pausedSR) /\ exp.res = "ok") => res = "ok"   \* unnamed flows / admin stay available
+         /\ ((pre.pausedBM \/ pre.pausedSR) /\ exp.res = "ok" /\ ~DontCare(m)) => res = "ok"   \* unnamed flows / admin stay available
     [] p = "C13" ->
          /\ ThresholdOK(o.post)
          /\ m.type \in AttMgrTypes =>
@@ -296,10 +304,12 @@ LensR(p, pre, m, f, o, r) ==
          /\ KeysChanged(pre, o.post) \subseteq (IF res = "ok" THEN AllowedWrites(m) ELSE {})
          /\ res = "ok" => o.writes \subseteq AllowedWrites(m)
     [] p = "C19" ->
-         \* registries are exact maps: the registry part of the store is what the specification says
-         /\ res = exp.res
-         /\ <<o.post.attesters, o.post.limits, o.post.pairs, o.post.msgrs, o.post.used>>
-              = <<r.post.attesters, r.post.limits, r.post.pairs, r.post.msgrs, r.post.used>>
+         \* registries are exact maps: adding, removing and setting behave as specified, and no transaction
+         \* (whatever its own fate) leaves the registries in another shape than the specification says
+         /\ m.type \in RegistryTypes => res = exp.res
+         /\ (res = exp.res /\ ~DontCare(m)) =>
+              <<o.post.attesters, o.post.limits, o.post.pairs, o.post.msgrs, o.post.used>>
+                = <<r.post.attesters, r.post.limits, r.post.pairs, r.post.msgrs, r.post.used>>
          \* queries reflect the state (when the observation includes the query view)
          /\ "q" \in DOMAIN o => QueryOK(o.q, o.post)
     [] p = "C20" -> o.res # "panic"
